@@ -90,7 +90,7 @@ class Live:
 
     def _build_multipoint(self):
         self._as(dict(name="wing", nx=2, ny=3, sym=True, side="L", shape="swept", visc=True, fem="tube", relief=True, geo={"twist_cp": [1.0, 2.0, 3.0]}), npoints=2)
-        self.of = ["AS_point_0.fuelburn", "AS_point_1.L_equals_W", "AS_point_1.wing_perf.failure", "AS_point_0.CM", "AS_point_1.CM", "AS_point_1.total_perf.moment.M"]
+        self.of = ["AS_point_0.fuelburn", "AS_point_1.L_equals_W", "AS_point_1.wing_perf.failure", "AS_point_0.CM", "AS_point_1.CM", "AS_point_1.total_perf.moment.M", "multi_CD.CD"]
         self.wrt = ["alpha_0", "alpha_1", "v_0", "rho_1", "wing.twist_cp", "wing.thickness_cp", "load_factor_1", "W0"]
 
     def _build_struct(self):
@@ -312,6 +312,11 @@ def replay(kind, hist, start="p0", mode="auto", rtol=1e-9):
             bad = compare(L.outputs(), ref, rtol)
             if bad:
                 devs.append({"step": i, "op": "run", "pt": L.pt, "what": "outputs", "bad": bad[:6]})
+        elif op == "setup":
+            # Problem.setup() again on the same model objects; set_val values are lost, the script re-applies the current point
+            L.m.resetup()
+            L.set_point(L.pt)
+            ran = None
         elif op == "totals":
             if ran != L.pt:
                 continue  # not enabled in the spec
